@@ -55,8 +55,8 @@ def panosCommitBody : Sess :=
     .ite .err "err != nil" (.ret .keep ["err"]) .skip ;;
     xmlUnmarshal ;;
     .ite .err "err != nil" (.ret .keep ["err"]) .skip ;;
-    .ite (.flag .pend) "¬$new.Result != \"PEND\"" .cont
-      (.ite (.flag .jobOk) "¬$new.Result != \"OK\"" (.ret .nil ["nil"]) (.ret .err ["_"])))
+    .ite (.flag .pend) "¬$v.Result != \"PEND\"" .cont
+      (.ite (.flag .jobOk) "¬$v.Result != \"OK\"" (.ret .nil ["nil"]) (.ret .err ["_"])))
 def panosCommit : Sess := .call "commit" [] panosCommitBody
 
 def panosApplyBody : Sess :=
@@ -98,9 +98,9 @@ def panosCheckHABody : Sess :=
   .ite .err "err != nil" (.ret .err ["false"]) .skip ;;
   op "Unmarshal" ["_", "_"] ;;
   .ite .never "err != nil" (.ret .err ["false"]) .skip ;;
-  .ite (.flag .haActive) "$new.Enabled != \"yes\"" (.ret .nil ["true"]) .skip ;;
-  .ite .never "¬$new.Mode != \"Active-Passive\"" (.ret .none ["_"])
-    (.ite .never "¬$new.Mode != \"Active-Active\"" (.ret .none ["_"]) .skip) ;;
+  .ite (.flag .haActive) "$v.Enabled != \"yes\"" (.ret .nil ["true"]) .skip ;;
+  .ite .never "¬$v.Mode != \"Active-Passive\"" (.ret .none ["_"])
+    (.ite .never "¬$v.Mode != \"Active-Active\"" (.ret .none ["_"]) .skip) ;;
   .ret .err ["false"]
 
 /-- the function literal handed to TryReachableHTTPLogin -/
@@ -167,7 +167,7 @@ def nsxGetRawJSONBody (t : Txt) : Sess :=
      jsonUnmarshal ;;
      .ite .err "err != nil" (.ret .err ["nil", "_"]) .skip) ;;
     .scope "loop" (.when .never (op "Unmarshal" ["_", "_"] ;; .ite .never "err != nil" (.ret .keep ["nil", "err"]) .skip)) ;;
-    .ite (.not .never) "¬$var != \"\"" (op "break") .skip) ;;
+    .ite (.not .never) "¬$v != \"\"" (op "break") .skip) ;;
   .ret .nil ["_", "nil"]
 def nsxGetRawJSON (t : Txt) : Sess := .call "getRawJSON" ["_"] (nsxGetRawJSONBody t)
 
